@@ -154,6 +154,8 @@ pub fn string_strategy(cfg: ValCfg) -> BoxedStrategy<String> {
                 s
             })),
             1 => select(vec![8191usize, 8192, 8193]).prop_map(|n| "q".repeat(n)),
+            // one contiguous write of 256 KiB and more (buffering layers have thresholds too)
+            1 => select(vec![262_143usize, 262_144, 300_000]).prop_map(|n| "w".repeat(n)),
         ]
         .boxed()
     } else {
@@ -472,7 +474,11 @@ fn field_val(ty: &Ty, cfg: ValCfg, depth: u32, decls: &mut Vec<Arc<crate::ty::De
 
 fn bytes_strategy(cfg: ValCfg, depth: u32) -> BoxedStrategy<Val> {
     let long = if cfg.long && depth == 0 {
-        select(vec![127usize, 128, 129, 16383, 16384]).prop_flat_map(|n| proptest::collection::vec(any::<u8>(), n..=n)).boxed()
+        prop_oneof![
+            6 => select(vec![127usize, 128, 129, 16383, 16384]).prop_flat_map(|n| proptest::collection::vec(any::<u8>(), n..=n)),
+            1 => (select(vec![262_143usize, 262_144, 300_000]), any::<u8>()).prop_map(|(n, b)| vec![b; n]),
+        ]
+        .boxed()
     } else {
         Just(vec![]).boxed()
     };
